@@ -27,7 +27,7 @@ def shrink_paths(ctx, devs):
     for the shrunk witnesses; the locus is then TLC's PathLocus of the shrunk expression."""
     cur = {k: json.loads(k[2]) for k in devs}          # key -> current (smallest known deviating) case
     info = {}
-    for _ in range(4):
+    for _ in range(5):
         cands = {}
         for k, case in cur.items():
             fr = case["fr"]
@@ -45,17 +45,25 @@ def shrink_paths(ctx, devs):
         bad = {}
         for b in res["bad"]:
             ev = json.loads(lines[b["i"] - 1])
-            bad[(b["form"], b["kind"], json.dumps(ev["case"], sort_keys=True))] = (b, ev)
+            cj = json.dumps(ev["case"], sort_keys=True)
+            bad[(b["form"], b["kind"], cj)] = (b, ev)
+            bad.setdefault((b["form"], None, cj), (b, ev))
         progress = False
         for k, case in list(cur.items()):
             fr = case["fr"]
-            for j in range(len(fr)):
-                c = dict(case, fr=fr[:j] + fr[j + 1:], cell="shrunk")
-                hit = bad.get((k[0], k[1], json.dumps(c, sort_keys=True)))
+            # a smaller expression that deviates in the same way, else one that deviates at all through the same form
+            kind = info[k][0]["kind"] if k in info else k[1]
+            for want in (kind, None):
+                hit = None
+                for j in range(len(fr)):
+                    c = dict(case, fr=fr[:j] + fr[j + 1:], cell="shrunk")
+                    hit = bad.get((k[0], want, json.dumps(c, sort_keys=True)))
+                    if hit:
+                        cur[k] = c
+                        info[k] = hit
+                        progress = True
+                        break
                 if hit:
-                    cur[k] = c
-                    info[k] = hit
-                    progress = True
                     break
         if not progress:
             break
